@@ -41,13 +41,44 @@ LocCmp(a, b) ==
      ELSE Sgn(a.col - b.col)
 
 (***************************************************************************)
+(* C12: display names, declaratively.                                      *)
+(*   - an item is shown under its raw name without the r# prefix unless    *)
+(*     `name = ".."` was written, which overrides it;                      *)
+(*   - a type is shown as its `type_name` with the leading module path     *)
+(*     components removed, never looking past the first generic bracket;   *)
+(*   - a const is shown as its value prints.                               *)
+(* Programs of back-end M carry only what was WRITTEN (raw name, optional  *)
+(* custom name, raw type_name, const value); programs of back-end R carry  *)
+(* the names they registered (name_cp, type_cp, const_cp).                 *)
+(***************************************************************************)
+EntryDisplay(e) ==
+  IF "custom_name" \in DOMAIN e
+    THEN (IF e.custom_name = <<>> THEN StripRaw(e.raw_cp) ELSE e.custom_name[1])
+    ELSE e.name_cp
+
+\* the suffix after the last "::" that lies entirely before the first "<"
+TypeDisplay(raw) ==
+  LET lts == {i \in 1..Len(raw) : raw[i] = 60}
+      lt == IF lts = {} THEN Len(raw) + 1 ELSE CHOOSE i \in lts : \A j \in lts : i <= j
+      seps == {i \in 1..(lt - 2) : raw[i] = 58 /\ raw[i + 1] = 58}
+      last == CHOOSE i \in seps : \A j \in seps : j <= i
+  IN IF seps = {} THEN raw ELSE SubSeq(raw, last + 2, Len(raw))
+
+RECURSIVE NatText(_)
+NatText(n) == IF n < 10 THEN <<48 + n>> ELSE NatText(n \div 10) \o <<48 + (n % 10)>>
+IntText(n) == IF n < 0 THEN <<45>> \o NatText(0 - n) ELSE NatText(n)
+
+TypeCp(x) == IF "type_cp" \in DOMAIN x THEN x.type_cp ELSE TypeDisplay(x.type_raw_cp)
+ConstCp(x) == IF "const_cp" \in DOMAIN x THEN x.const_cp ELSE IntText(x.const)
+
+(***************************************************************************)
 (* Leaves: one per plain #[divan::bench] function and one per generic      *)
 (* instantiation (types x consts); a leaf with `isArgs` has one case per   *)
 (* argument.                                                               *)
 (***************************************************************************)
 PlainLeaf(P, i) ==
   LET b == P.benches[i] IN
-  [what |-> "b", id |-> i - 1, parents |-> b.mods_cp, disp |-> b.name_cp,
+  [what |-> "b", id |-> i - 1, parents |-> b.mods_cp, disp |-> EntryDisplay(b),
    isArgs |-> b.is_args, args |-> b.args_cp, loc |-> Loc(b), opts |-> b.opts_rec,
    group |-> 0, row |-> 0, decl |-> 0, isConst |-> FALSE, constVal |-> 0,
    bcounter |-> b.bencher_counter]
@@ -62,8 +93,8 @@ GenericLeaf(P, j) ==
   [what |-> "g", id |-> j - 1,
    \* module path, then the function (group) name, then - for types x consts -
    \* the type as an intermediate level
-   parents |-> g.mods_cp \o <<g.raw_cp>> \o (IF x.has_const /\ x.has_type THEN <<x.type_cp>> ELSE <<>>),
-   disp |-> IF x.has_const THEN x.const_cp ELSE x.type_cp,
+   parents |-> g.mods_cp \o <<g.raw_cp>> \o (IF x.has_const /\ x.has_type THEN <<TypeCp(x)>> ELSE <<>>),
+   disp |-> IF x.has_const THEN ConstCp(x) ELSE TypeCp(x),
    isArgs |-> g.generic.kind = "args",
    args |-> IF g.generic.kind = "args" THEN g.generic.args_cp ELSE <<>>,
    loc |-> Loc(g), opts |-> g.opts_rec,
@@ -81,7 +112,7 @@ GroupsAt(P, rawPath) ==
   {g \in 1..Len(P.groups) : P.groups[g].mods_cp = Front(rawPath) /\ P.groups[g].raw_cp = Last(rawPath)}
 HasGroup(P, rawPath) == Len(rawPath) >= 2 /\ GroupsAt(P, rawPath) # {}
 GroupOf(P, rawPath) == P.groups[CHOOSE g \in GroupsAt(P, rawPath) : TRUE]
-DisplayOf(P, rawPath) == IF HasGroup(P, rawPath) THEN GroupOf(P, rawPath).name_cp ELSE StripRaw(Last(rawPath))
+DisplayOf(P, rawPath) == IF HasGroup(P, rawPath) THEN EntryDisplay(GroupOf(P, rawPath)) ELSE StripRaw(Last(rawPath))
 
 DispParents(P, leaf) == [i \in 1..Len(leaf.parents) |-> DisplayOf(P, SubSeq(leaf.parents, 1, i))]
 DispPath(P, leaf) == DispParents(P, leaf) \o <<leaf.disp>>
@@ -187,4 +218,54 @@ SibChainSet(keys, i, x, y) ==
 SibCmpSet(C, x, y) ==
   LET S == SibChainSet(TieBreakers(C.sort_key), 1, x, y)
   IN IF C.reverse THEN NegSet(S) ELSE S
+
+(***************************************************************************)
+(* C12: what the attribute macros must have registered for a WRITTEN       *)
+(* program (back-end M).  `reg` is the registry a compiled program dumps:  *)
+(* reg.benches (one record per BenchEntry), reg.groups (one per GroupEntry *)
+(* with its generic instances).  Both sides are brought to the same        *)
+(* shape; the thread-count list of an option record is compared as a set   *)
+(* (order and repetition of counts carry no meaning, see Options.tla).     *)
+(***************************************************************************)
+SeqRange(q) == {q[i] : i \in 1..Len(q)}
+NormOpts(o) == [k \in OptKeys |-> IF k = "threads" /\ IsSet(o[k]) THEN <<SeqRange(o[k][1])>> ELSE o[k]]
+
+\* module path as module_path!() spells it: components joined by "::"
+WrittenMeta(e) ==
+  [mp |-> JoinAll(e.mods_cp), raw |-> e.raw_cp, disp |-> EntryDisplay(e),
+   file |-> e.file_cp, line |-> e.line, col |-> e.col, opts |-> NormOpts(e.opts_rec)]
+DumpedMeta(e) ==
+  [mp |-> e.module_path_cp, raw |-> e.raw_name_cp, disp |-> e.display_name_cp,
+   file |-> e.file_cp, line |-> e.line, col |-> e.col, opts |-> NormOpts(e.opts)]
+
+\* a benchmark function without types / consts: one entry; with `args` one case per value, in order
+WrittenBench(b) ==
+  [meta |-> WrittenMeta(b), kind |-> IF b.is_args THEN "args" ELSE "plain",
+   cases |-> IF b.is_args THEN b.args_cp ELSE <<>>]
+DumpedBench(e) == [meta |-> DumpedMeta(e), kind |-> e.kind, cases |-> e.arg_names_cp]
+
+\* a generic function: one instance per combination of its types x consts entries
+InstancesOf(P, g) == {j \in 1..Len(P.ginst) : P.ginst[j].group = g - 1}
+WrittenInstance(P, j) ==
+  LET x == P.ginst[j] gen == P.groups[x.group + 1].generic IN
+  [hasType |-> x.has_type, typeRaw |-> IF x.has_type THEN x.type_raw_cp ELSE <<>>,
+   typeDisp |-> IF x.has_type THEN TypeDisplay(x.type_raw_cp) ELSE <<>>,
+   hasConst |-> x.has_const, constName |-> IF x.has_const THEN ConstCp(x) ELSE <<>>,
+   kind |-> gen.kind, cases |-> IF gen.kind = "args" THEN gen.args_cp ELSE <<>>]
+DumpedInstance(i) ==
+  [hasType |-> i.has_type, typeRaw |-> i.type_raw_cp, typeDisp |-> i.type_display_cp,
+   hasConst |-> i.has_const, constName |-> i.const_name_cp, kind |-> i.kind, cases |-> i.arg_names_cp]
+
+WrittenGroup(P, g) ==
+  [meta |-> WrittenMeta(P.groups[g]), generic |-> P.groups[g].is_generic,
+   instances |-> {WrittenInstance(P, j) : j \in InstancesOf(P, g)}]
+DumpedGroup(e) ==
+  [meta |-> DumpedMeta(e), generic |-> e.is_generic,
+   instances |-> {DumpedInstance(e.instances[k]) : k \in 1..Len(e.instances)}]
+
+\* A #[divan::bench_group] module is always registered; a generic function is
+\* registered through its instances: with an empty types / consts list there
+\* is no instance, and then no benchmark - whether a childless entry for the
+\* function itself is left behind is not observable in any run and is left open.
+MustBeRegistered(P, g) == ~P.groups[g].is_generic \/ InstancesOf(P, g) # {}
 =============================================================================
